@@ -224,6 +224,9 @@ def run(tier, seed):
         jobs = []
         for k in range(0, len(forms), per):
             jobs.append({"id": "c11-%d" % k, "interps": [{"stdlib": True}], "steps": [{"src": show(f)} for f, e in forms[k:k + per]], "fuel": 100000})
+        for ji, j in enumerate(jobs):
+            if ji % 3 == 1:
+                diff.age(j, ctx.rng, ctx.rng.choice([50, 300]))
         recs = core.run_jobs(jobs, leg, timeout=600 if tier == "quick" else 3000, tag="c11")
         for k, rec in zip(range(0, len(forms), per), recs):
             chunk = forms[k:k + per]
